@@ -27,10 +27,11 @@ static inline uint64_t vf_rng_below(vf_rng_t* r, uint64_t n) { return (n == 0 ? 
 static inline int      vf_rng_chance(vf_rng_t* r, unsigned num, unsigned den) { return (vf_rng_below(r, den) < num); }
 
 /* ---------- progress markers for crash reports ---------- */
-extern volatile uint64_t    vf_cur_op;       /* index of the operation being executed */
-extern volatile const char* vf_cur_what;     /* name of the operation / phase */
-extern volatile int         vf_in_harness;   /* 1 while the harness itself touches block memory (a fault there is "live block not accessible") */
-extern volatile uintptr_t   vf_touch_lo, vf_touch_hi;  /* the range the harness is touching */
+/* per thread (the crash handler runs in the faulting thread) */
+extern __thread volatile uint64_t    vf_cur_op;       /* index of the operation being executed */
+extern __thread volatile const char* vf_cur_what;     /* name of the operation / phase */
+extern __thread volatile int         vf_in_harness;   /* 1 while the harness itself touches block memory (a fault there is "live block not accessible") */
+extern __thread volatile uintptr_t   vf_touch_lo, vf_touch_hi;  /* the range the harness is touching */
 
 /* ---------- trip: an oracle refuted something ---------- */
 /* refutes: comma separated property ids whose statement this observation refutes.  Never returns. */
